@@ -11,44 +11,66 @@ results.  A match limit that drops matches is always reported, removing a match 
 remaining captures only, and the Rust iterators return exactly the matches whose text predicates
 hold for the source text.*
 
-Clause map (theorem ↦ clause; what is *judged* on the implementation's streams is in Judge.lean):
+## Clause map: each phrase of the property text → theorems, with status
 
-* "capture stream = triples of the match stream, in document order":
-  `captureStream_sorted`, `captureStream_perm`, `captureStream_triples`,
-  `captureStream_startSorted`, `judgeA_captureStream` (the spec stream passes the very judge that
-  is run on the implementation's capture stream).
-* "matches that intersect the range / lie inside it": `range_intersects_spec`,
-  `range_within_spec` (generated predicates = half-open overlap / containment incl. the
-  empty-node convention), `range_intersects_bytes_of_consistent`,
-  `range_within_bytes_of_consistent` (byte and point conjuncts agree for position-consistent
-  ranges), `range_within_mono` (a node inside a contained root is contained: filtering by the
-  root decides the whole match), `range_intersects_parent` (a non-empty node that intersects makes
-  its parent intersect: pruning by the parent loses nothing) with the empty-node counterexample,
-  `setByteRange_spec`.
-* "the Rust iterators return exactly the matches whose text predicates hold":
-  `predicates_spec_fixed` (the repaired code = documented reading, all predicates, all inputs),
-  `predicates_spec_partial` (the unchanged code = documented reading for every `all` form and
-  `any-of?`), `predicates_impl_any_str_true` (the unchanged `any-` string forms are constantly
-  true — the defect), `any_eq_witness` (the concrete counterexample).
-  OPEN (false on the unchanged tree, true after fixes/C11-any-predicates.diff):
-  `∀ isMatch caps p, evalImpl isMatch caps p = evalSpec isMatch caps p`.
-* "a match limit that drops matches is always reported" / ordering of the capture view — the
-  structures behind them (hand ports in Heap.lean, tied by `cunit_c11.c` on every run):
-  `precedes_iff`, `precedes_irrefl`, `precedes_trans`, `precedes_negtrans` (`finished_state_precedes`
-  is a strict weak order on (next capture byte, pattern, insertion order), exhausted states last),
-  `heap_root_min` (= heap_pop_min: in a heap nothing precedes index 0, the state `next_capture`
-  takes), `isHeapB_iff` (the judged predicate is the heap property);
-  `pool_reset`, `pool_acquire`, `pool_release` (= pool_conservation: cached free count exact,
-  used + free = allocated ≤ limit after a reset, acquire fails only when `is_empty`);
-  `pool_flag_prepare`, `pool_flag_abandon` (= pool_flag: the two transitions that kill or drop an
-  in-progress state set `did_exceed_match_limit`).
-  `heap_inv` (after ANY history of push / lazy heapify / pop / erase(i) / consume from the empty
-  array the first `heapSize` slots are a heap: `siftUp_heap`, `siftDown_heap`, `heapify_heap`,
-  `push_heap`, `pop_heap`, `erase_heap`, `consume_heap`, `applyOp_inv`), `heap_pop_min` (after any
-  history + heapify nothing precedes index 0).  The same `applyOp` is what the driver runs against
-  the real functions, and `isHeapB` is still judged after every operation.
-* quantifier algebra (feeds C05): `quantifier_add_sound/least`, `quantifier_join_sound/least`,
-  `quantifier_mul_sound/least`.
+Status: **proved** (kernel-checked, for all inputs) · **partial** (proved under the stated hypothesis /
+for the stated fragment) · **judged** (decided by the Lean judge on the real cursor's streams of every
+generated case; no ∀-theorem about the implementation).  Theorems of `ViewProps.lean` are marked (V).
+Everything about the IMPLEMENTATION is judged: the theorems are about the spec, the judges and the ports.
+
+1. *"the capture stream contains exactly the (pattern, capture, node) triples that occur in the match stream"*
+   - spec view = a rearrangement of the matches' captures, nothing added / dropped / duplicated:
+     `captureStream_perm`, `captureStream_triples` — **proved** (multiset equality).
+   - the judge demands both inclusions: `judgeA_iff` (V) (accepts ⇔ same triples AS A SET ∧ document order),
+     `judgeA_triples`, `judgeA_captureStream` (the spec stream passes the judge) — **proved**.  Weakness kept on
+     purpose: set, not multiset (a shared node is reported once per in-progress state, see conventions).
+   - under a range: only `visible ⊆ captures ⊆ all` (`judgeA` with `inc`) — **partial** (two inclusions with
+     different bounds; the cursor drops out-of-range captures of finished states only).
+   - real `captures()` vs real `matches()`: **judged** (clause a; clause h with text predicates).
+2. *"in document order"* — `captureStream_sorted`, `captureStream_startSorted`, `captureStream_keys_unique` (V)
+   (any sorted rearrangement has the merge's key sequence) — **proved** for the spec; the judge demands
+   non-decreasing START BYTE only (`startSorted`; ties by end / pattern are not demanded) — **judged**.
+3. *"restricting the cursor to a byte/point range yields precisely the unrestricted matches that intersect it
+   (or, for containing ranges, lie inside it)"*
+   - the generated `range_intersects` / `range_within` ARE half-open overlap / containment (+ empty-node
+     convention): `range_intersects_spec`, `range_within_spec`, `range_*_eq_spec`, `setByteRange_spec` — **proved**.
+   - "precisely" = filter of the unrestricted stream: `judgeB_qfree_iff` (V) — **proved**, both inclusions and
+     order, for queries WITHOUT quantifiers and alternations; with them only `judgeB_sound` (V) (every returned
+     (pattern, root) is kept by the filter) — **partial** (⊆ only: a match completed past the range may be lost).
+   - what "intersects" means for a match: root and root's parent (`keepIntersect`); `keepIntersect_eq_root` (V)
+     (non-empty root inside its parent: just the root), `range_intersects_parent`, `range_within_mono` —
+     **proved**; non-rooted patterns: the parent of the first node (convention, **judged**); zero-width roots:
+     NOT constrained (`emptyRoot`; nothing decides them).
+   - byte range vs point range of the same positions: `range_intersects_bytes_of_consistent`,
+     `range_within_bytes_of_consistent` — **proved** for position-consistent ranges; real runs: **judged** (clause p).
+   - rootedness flag used to choose the rule: clause r — **judged** against the pattern text.
+4. *"re-executing a cursor or using a fresh one gives identical results"* — `judgeCm_iff`, `judgeCc_iff` (V) (the
+   judge is equality, ids included) — trivial; the claim itself is **judged** (clauses c, cl, fl).  Behind it:
+   `pool_reset`, `heap_inv`, `heap_pop_min` — **proved** for the ported structures.
+5. *"a match limit that drops matches is always reported"*
+   - `judgeDm_iff`, `judgeDc_iff` (V): a differing stream needs the flag — **proved** (judge), real runs **judged** (d).
+   - on the pool model: `prepare_flag_eq`, `abandon_flag_eq`, `prepare_exhausted_drops`,
+     `prepare_not_exhausted_keeps`, `abandon_erases_iff`, `flag_trace`, `flag_iff_dropped` (V) and
+     `pool_flag_prepare/abandon`: flag set ⇔ a state or capture was dropped — **partial**: about the hand ports
+     `prepareToCapture` / `abandonEarliest` (trusted to mirror the two C sites; the pool primitives under them
+     are tied by `cunit_c11.c`), `pool_acquire`, `pool_release` — **proved**.
+   - order in which finished matches leave: `precedes_*`, `heap_root_min`, `heap_inv` — **proved** (ports, tied by cunit).
+6. *"removing a match suppresses its remaining captures only"* — **judged only** (`judgeE`: prefix unchanged always;
+   others kept / nothing new / own captures gone only for quantifier-free queries with a unique match id).  No theorem.
+7. *"the Rust iterators return exactly the matches whose text predicates hold for the source text"*
+   - `predicates_spec_fixed` (repaired loops = documented reading, all predicates), `predicates_spec_partial`,
+     `predicates_impl_any_str_true`, `any_eq_witness` — **proved** about the hand port of the loops in lib.rs
+     (tie: `evalImpl | evalFixed` compared with the real verdict on every case).
+   - `judgeF_iff`, `mem_filterBy` (V): the judge demands the filter of the raw stream, keys in order — **proved**;
+     real `matches()` with predicates: **judged** (f); real `captures()` with predicates vs `matches()`: **judged** (h).
+   - `#match?`: `miniRegex` stands in for the regex crate on the generated subset — trusted.
+8. (quantifier over configurations) *max start depth*: `judgeG_simple_iff` (V) — **proved** (judge), runs **judged** (g).
+9. quantifier algebra (feeds C05): `quantifier_add/join/mul_sound/least` — **proved** about the GENERATED tables.
+
+Pairs of views and what connects them: matches↔captures (1, 2: theorems + judged) · unrestricted↔byte range (3) ·
+byte↔point range (3) · fresh↔re-executed↔reused (4: judged) · unlimited↔limited (5) · before↔after removal
+(6: judged only) · raw↔predicate-filtered matches (7) · filtered captures↔filtered matches (7: judged) ·
+unrestricted↔start-depth-bounded (8).
 
 Conventions fixed here where the docs are silent (the implementation decides):
 * identity of a triple is (pattern index, capture index, node); the capture view is compared with
